@@ -70,6 +70,8 @@ type Ctx struct {
 	prog    *ssa.Program
 	ssaPkgs map[string]*ssa.Package
 	funcs   map[string]*Func
+	byObj   map[types.Object]*Func
+	callers map[types.Object][]callSite
 }
 
 // Func is a resolved source function.
@@ -114,7 +116,45 @@ func Load(repo, prop, tier string) (*Ctx, error) {
 		return nil, fmt.Errorf("only %d packages loaded from %s (expected >= 27)", len(c.Pkgs), repo)
 	}
 	c.Stats["packages_loaded"] = len(c.Pkgs)
+	currentGlobalInits = c.GlobalInits()
 	return c, nil
+}
+
+// GlobalInits returns, per package directory, the initialiser expression (as
+// text) of every package-level variable that has one.
+func (c *Ctx) GlobalInits() map[string]map[string]string {
+	out := map[string]map[string]string{}
+	for path, p := range c.Pkgs {
+		if !strings.HasPrefix(path, Mod) {
+			continue
+		}
+		dir := strings.TrimPrefix(strings.TrimPrefix(path, Mod), "/")
+		for _, file := range p.Syntax {
+			for _, d := range file.Decls {
+				gd, ok := d.(*ast.GenDecl)
+				if !ok || gd.Tok != token.VAR {
+					continue
+				}
+				for _, sp := range gd.Specs {
+					vs := sp.(*ast.ValueSpec)
+					if len(vs.Values) != len(vs.Names) {
+						continue
+					}
+					for i, nm := range vs.Names {
+						if out[dir] == nil {
+							out[dir] = map[string]string{}
+						}
+						txt := types.ExprString(vs.Values[i])
+						if len(txt) > 300 {
+							txt = txt[:300]
+						}
+						out[dir][nm.Name] = txt
+					}
+				}
+			}
+		}
+	}
+	return out
 }
 
 // SSA builds (once) the SSA form of all module packages.
@@ -250,37 +290,25 @@ func (c *Ctx) Func(dir, name string) *Func {
 		}
 	}
 	if f == nil {
-		// renamed: the only function of the package that is new since the reference tree and has the
-		// signature (receiver included) the lost function had there
-		refName := dir + "." + name
-		if i := strings.LastIndex(name, "."); i >= 0 {
-			refName = "" // methods: matched through the receiver in the signature below
-		}
-		want := ""
-		for n, sg := range referenceFuncs {
-			short := n
-			if j := strings.LastIndex(short, "."); j >= 0 && strings.HasSuffix(short, "."+name[strings.LastIndex(name, ".")+1:]) {
-				if refName != "" && n == refName {
-					want = sg
-				} else if refName == "" && strings.Contains(n, dir+".") && strings.Contains(n, name[:strings.LastIndex(name, ".")]+")") {
-					want = sg
+		// renamed: a function of the package, new since the reference tree, whose canonical
+		// (reference) name is the one asked for
+		for _, g := range c.AllFuncs(dir) {
+			sf := c.SSAFunc(g)
+			if sf == nil {
+				continue
+			}
+			cn := funcName(sf) // canonical: the reference name when g renames a reference function
+			want := dir + "." + name
+			if i := strings.LastIndex(name, "."); i >= 0 {
+				want = "" // method: compare receiver type and method names
+				if strings.HasSuffix(cn, "."+name[i+1:]) && (strings.Contains(cn, "."+name[:i]+").") || strings.Contains(cn, "*"+dir+"."+name[:i]+").") || strings.Contains(cn, "("+dir+"."+name[:i]+").")) {
+					want = cn
 				}
 			}
-		}
-		if want != "" {
-			var cands []*Func
-			for _, g := range c.AllFuncs(dir) {
-				sf := c.SSAFunc(g)
-				if sf == nil {
-					continue
-				}
-				if _, known := referenceFuncs[funcName(sf)]; !known && sigString(g.Obj) == want {
-					cands = append(cands, g)
-				}
-			}
-			if len(cands) == 1 {
-				f = cands[0]
+			if cn == want && want != "" && g.Name != dir+"."+name {
+				f = g
 				c.Notes = append(c.Notes, fmt.Sprintf("anchor %s adopted renamed successor %s", key, f.Name))
+				break
 			}
 		}
 	}
@@ -609,6 +637,22 @@ func (c *Ctx) IsNewFunc(f *Func) bool {
 	return !known
 }
 
+// FuncOfObj returns the module function declared by o, or nil.
+func (c *Ctx) FuncOfObj(o types.Object) *Func {
+	if o == nil {
+		return nil
+	}
+	if c.byObj == nil {
+		c.byObj = map[types.Object]*Func{}
+		for _, d := range c.ModuleDirs() {
+			for _, g := range c.AllFuncs(d) {
+				c.byObj[g.Obj] = g
+			}
+		}
+	}
+	return c.byObj[o]
+}
+
 // WithNewHelpers returns f followed by the functions it calls (two hops) that
 // were introduced after the reference tree: the code of f as it was before
 // helpers were extracted from it.
@@ -641,4 +685,154 @@ func (c *Ctx) WithNewHelpers(f *Func) []*Func {
 		frontier = next
 	}
 	return out
+}
+
+// AllSymbols lists "F\tpkg.Type\tfield\ttype" for every field of every named
+// struct of the module and "G\tpkg\tname\ttype" for every package-level variable.
+func (c *Ctx) AllSymbols() []string {
+	var out []string
+	for _, d := range c.ModuleDirs() {
+		p := c.Pkg(d)
+		if p == nil {
+			continue
+		}
+		sc := p.Types.Scope()
+		for _, name := range sc.Names() {
+			switch o := sc.Lookup(name).(type) {
+			case *types.TypeName:
+				if st, ok := o.Type().Underlying().(*types.Struct); ok {
+					for i := 0; i < st.NumFields(); i++ {
+						out = append(out, "F\t"+d+"."+name+"\t"+st.Field(i).Name()+"\t"+types.TypeString(st.Field(i).Type(), nil))
+					}
+				}
+			case *types.Var:
+				out = append(out, "G\t"+d+"\t"+name+"\t"+types.TypeString(o.Type(), nil))
+			}
+		}
+	}
+	sort.Strings(out)
+	return out
+}
+
+// InspectAll walks the body of f and the bodies of the helpers introduced since
+// the reference tree that f calls (two hops): the code of f as it read before
+// helpers were extracted from it.
+func (c *Ctx) InspectAll(f *Func, visit func(*Func, ast.Node) bool) {
+	for _, g := range c.WithNewHelpers(f) {
+		g := g
+		ast.Inspect(g.Decl.Body, func(n ast.Node) bool { return visit(g, n) })
+	}
+}
+
+// RefName returns the name f has in the reference vocabulary ("dir.Recv.Name"):
+// f.Name unless f merely renames a reference function.
+func (c *Ctx) RefName(f *Func) string {
+	sf := c.SSAFunc(f)
+	if sf == nil {
+		return f.Name
+	}
+	cn := funcName(sf)
+	if _, known := referenceFuncs[cn]; !known {
+		return f.Name
+	}
+	return strings.NewReplacer("(*", "", "(", "", ")", "").Replace(cn)
+}
+
+type callSite struct {
+	g    *Func
+	call *ast.CallExpr
+}
+
+func (c *Ctx) callersOf(o types.Object) []callSite {
+	if c.callers == nil {
+		c.callers = map[types.Object][]callSite{}
+		for _, d := range c.ModuleDirs() {
+			for _, g := range c.AllFuncs(d) {
+				g := g
+				ast.Inspect(g.Decl.Body, func(n ast.Node) bool {
+					if call, ok := n.(*ast.CallExpr); ok {
+						if callee := Callee(g.Pkg.TypesInfo, call); callee != nil {
+							c.callers[callee] = append(c.callers[callee], callSite{g, call})
+						}
+					}
+					return true
+				})
+			}
+		}
+	}
+	return c.callers[o]
+}
+
+type attribution struct {
+	root  string
+	subst map[types.Object]string
+}
+
+// attributions lists, for a function f, the reference functions its code
+// belongs to and how f's parameters read there: f itself when f exists on the
+// reference tree (or renames a reference function); otherwise every caller of
+// f (helpers extracted from reference functions), parameters replaced by the
+// arguments of the call, up to two levels.
+func (c *Ctx) attributions(f *Func, depth int) []attribution {
+	sf := c.SSAFunc(f)
+	isNew := false
+	if sf != nil {
+		_, known := referenceFuncs[funcName(sf)]
+		isNew = !known
+	}
+	callers := c.callersOf(f.Obj)
+	if !isNew || depth >= 2 || len(callers) == 0 || len(callers) > 8 {
+		return []attribution{{c.RefName(f), nil}}
+	}
+	var out []attribution
+	for _, cs := range callers {
+		if cs.g == f {
+			continue
+		}
+		ginfo := cs.g.Pkg.TypesInfo
+		for _, at := range c.attributions(cs.g, depth+1) {
+			sub := map[types.Object]string{}
+			if f.Decl.Recv != nil {
+				if sel, ok := Unparen(cs.call.Fun).(*ast.SelectorExpr); ok {
+					for _, fl := range f.Decl.Recv.List {
+						for _, n := range fl.Names {
+							sub[f.Pkg.TypesInfo.Defs[n]] = CanonExpr(ginfo, cs.g.Decl, sel.X, at.subst)
+						}
+					}
+				}
+			}
+			k := 0
+			for _, fl := range f.Decl.Type.Params.List {
+				for _, n := range fl.Names {
+					if k < len(cs.call.Args) && cs.call.Ellipsis == token.NoPos {
+						if _, variadic := fl.Type.(*ast.Ellipsis); !variadic {
+							sub[f.Pkg.TypesInfo.Defs[n]] = CanonExpr(ginfo, cs.g.Decl, cs.call.Args[k], at.subst)
+						}
+					}
+					k++
+				}
+			}
+			out = append(out, attribution{at.root, sub})
+		}
+	}
+	if len(out) == 0 {
+		return []attribution{{c.RefName(f), nil}}
+	}
+	return out
+}
+
+// SiteKeys names the site of expression e in f in the reference vocabulary:
+// "function#expression" with canonical names (see CanonExpr), one key per
+// reference function the code of f belongs to (see attributions).
+func (c *Ctx) SiteKeys(f *Func, e ast.Expr) []string {
+	var keys []string
+	seen := map[string]bool{}
+	for _, at := range c.attributions(f, 0) {
+		k := at.root + "#" + CanonExpr(f.Pkg.TypesInfo, f.Decl, e, at.subst)
+		if !seen[k] {
+			seen[k] = true
+			keys = append(keys, k)
+		}
+	}
+	return keys
 }
